@@ -26,7 +26,7 @@ def run(ck: Checker):
     ck.rule('C12-1', 'Thread.run resolves its future exactly once on every path; the handler set is a catch-all (COUNT+EXITS)')
     ck.rule('C12-2', 'child process sends exactly one (result, error) pair on every way the target can end, pairs are (value, None) / (None, RemoteException(e)) / (None, None); the pipe is closed on every exit (COUNT+EXITS)', minimum=3)
     ck.rule('C12-3', 'the result collector resolves the process future exactly once on every exit, including EOF (child killed) and a failing recv; it never raises out of its thread with the future pending (EXITS)')
-    ck.rule('C12-4', 'join/result/exception read the future only after the OS-level join and (process) the collector-thread join; the not-done path leaves before touching it (PRECEDE)', minimum=6)
+    ck.rule('C12-4', 'join/result/exception read the future only after the OS-level join and (process) the collector-thread join; the not-done path leaves before touching it, the finished path always consults it, and an accessor waits for nothing but the worker, the collector and the future (PRECEDE+MUSTPASS+WHO)', minimum=6)
     ck.rule('C12-5', 'wait/as_completed map futures back to workers by the same key they indexed with (SIBLING)', minimum=4)
     ck.rule('C12-6', "a raised exception carries the thread's traceback text: Thread.run attaches the formatted traceback as __cause__ on every path that stores the exception (MUSTPASS)")
     check_thread_run(ck, 'C12-1')
@@ -291,13 +291,21 @@ def check_collector(ck: Checker, rid: str):
     TOTAL = {'time.sleep', 'os.strerror', 'OSError', 'Thread', 'multiprocessing.connection.wait', 'connection.wait', 'str', 'int', 'abs'}
     TOTAL_METHODS = {'close', 'start', 'put', 'join', 'set_result', 'set_exception', 'is_set', 'cancel'}
 
+    imports = ck.repo.module(CONTEXT).imports
+
+    def canon(d):
+        # a from-imported name is read as its qualified form (`sleep` -> `time.sleep`)
+        head, _, rest = d.partition('.')
+        full = imports.get(head)
+        return (full + ('.' + rest if rest else '')) if full else d
+
     def extra(node, a):
         R = set()
         for c in calls_in(a):
             r, me = method_of(c)
             if me == 'recv':
                 R |= {'EOFError', 'Exception'}
-            elif not (benign_call(c) or (dotted(c.func) or '') in TOTAL or me in TOTAL_METHODS):
+            elif not (benign_call(c) or (dotted(c.func) or '') in TOTAL or canon(dotted(c.func) or '') in TOTAL or me in TOTAL_METHODS):
                 R |= {'Exception'}
         return R
 
@@ -382,6 +390,27 @@ def check_accessors(ck: Checker, rid: str):
                 p = path_avoiding(cfg, [e for e in cfg.succ[tid] if e.kind == nd], read_ids, avoid=set(done_tests) - {tid})
                 if p is not None:
                     probs.append(f'the not-finished branch of the test at L{cfg.nodes[tid].lineno} reaches a read of the future')
+            # the finished branch always consults the outcome: no normal return of a finished worker skips the future
+            # (an exit status 0 does not mean the target ended well: os._exit(0), an outcome that cannot be unpickled)
+            consult = read_ids | (own_join if summaries.get('join') else set())
+            for tid, nd in done_tests.items():
+                fin = [e for e in cfg.succ[tid] if e.kind in ('T', 'F') and e.kind != nd]
+                p = path_avoiding(cfg, fin, {cfg.exit_return}, avoid=consult | (set(done_tests) - {tid}))
+                if p is not None:
+                    probs.append(f'a finished worker can leave {meth}() normally without its outcome being consulted (via L{[cfg.nodes[k].lineno for k in p if k >= 0][-3:]}): the accessors then disagree — e.g. join() returns although exception() reports an error')
+            # what an accessor waits for: the OS-level worker, the collector thread, the future -- nothing whose end
+            # depends on the child's data being well-formed (the log channel of a killed child can hold half a record)
+            for n in cfg.nodes:
+                a = header_expr(n)
+                if a is None:
+                    continue
+                for c in calls_in(a):
+                    r_, me = method_of(c)
+                    if me in ('join', 'wait', 'get', 'recv', 'acquire', 'result', 'exception') and r_ is not None:
+                        rt = dotted(r_) or (norm_text(r_) if isinstance(r_, ast.Call) else '')
+                        if rt in ('self._future_', 'self._result_collector_thread_', 'self', 'multiprocessing.connection', 'connection') or rt.startswith('super('):
+                            continue
+                        probs.append(f'L{n.lineno}: {meth}() also waits for `{norm_text(c)[:60]}`: an accessor waits for the worker, the collector thread and the future only — anything else (the log channel, a helper thread) can outlast a killed child and makes {meth}() hang instead of reporting')
             ok = not probs
             if meth == 'join':
                 summaries['join'] = ok
